@@ -76,10 +76,10 @@ impl OrdVal {
         match (self, o) {
             (OrdVal::U(a), OrdVal::U(b)) => a == b,
             (OrdVal::I(a), OrdVal::I(b)) => a == b,
-            // (the sign of a zero is not part of a key: 0.0 and -0.0 compare equal)
-            (OrdVal::F(a), OrdVal::F(b)) => a.to_bits() == b.to_bits() || (*a == 0.0 && *b == 0.0),
+            (OrdVal::F(a), OrdVal::F(b)) => a.to_bits() == b.to_bits(),
             (OrdVal::S(a), OrdVal::S(b)) => a == b,
             (OrdVal::B(a), OrdVal::B(b)) => a == b,
+            // (the sign of a zero SCORE is not part of the key: 0.0 and -0.0 compare equal)
             (OrdVal::Sc(a), OrdVal::Sc(b)) => a.to_bits() == b.to_bits() || (*a == 0.0 && *b == 0.0),
             _ => false,
         }
@@ -439,7 +439,7 @@ impl SortKind {
             SortKind::Score | SortKind::ScoreTopN(_) | SortKind::ScoreCmp(_) => {
                 CKey::One(Some(OrdVal::Sc(h.score)))
             }
-            SortKind::ScoreErased(_) => CKey::One(Some(OrdVal::F(h.score as f64))),
+            SortKind::ScoreErased(_) => CKey::One(Some(OrdVal::F(h.score as f64 + 0.0))),
             SortKind::U64Field(_) => CKey::One(d.fu.map(OrdVal::U)),
             SortKind::Fast(f, _) | SortKind::FastCmp(f, _) | SortKind::Erased(f, _) => CKey::One(f.model(d)),
             SortKind::TweakMod7 => CKey::One(Some(OrdVal::Sc(tweak_mod7(d)))),
@@ -879,7 +879,11 @@ fn do_search(kind: SortKind, r: &Req, t: &Arc<Tables>) -> Result<Out, String> {
         SortKind::ScoreErased(c) => run(
             r,
             |k, o| td(k, o).order_by((SortByErasedType::for_score(), c.to_enum())),
-            |v: OwnedValue| CKey::One(owned(v)),
+            // (x + 0.0 turns -0.0 into 0.0 and leaves every other value as it is)
+            |v: OwnedValue| match v {
+                OwnedValue::F64(x) => CKey::One(Some(OrdVal::F(x + 0.0))),
+                other => CKey::One(owned(other)),
+            },
         ),
         SortKind::U64Field(ord) => run(r, |k, o| td(k, o).order_by_u64_field("fu", ord), |v: Option<u64>| {
             CKey::One(v.map(OrdVal::U))
@@ -3093,6 +3097,7 @@ fn query_round(env: &Env, rng: &mut Rng, rep: &mut Report, q: &Q, qkind: &'stati
         rep.count("composed_searches", 1);
         rep.observe("composition", shape.name());
         rep.observe("composition_x_collector_family", format!("{}|{}", shape.name(), kind.family()));
+        rep.observe("composition_x_executor", format!("{}|{exec}", shape.name()));
         let out = match do_search(kind, &req, tables) {
             Ok(out) => out,
             Err(e) => {
